@@ -91,6 +91,9 @@ def min_n(p, boundary):
 
 
 def mkfd(shape, dxs, p, boundary, mins=(0.0, 0.0, 0.0)):
+    # the mode name as run-time data (read from a file, an argument parser):
+    # an equal string, not the same object as any literal
+    boundary = "".join(list(boundary))
     prm = dict(Nx=shape[0], Ny=shape[1], Nz=shape[2],
                xmin=mins[0], ymin=mins[1], zmin=mins[2],
                dx=dxs[0], dy=dxs[1], dz=dxs[2])
@@ -109,11 +112,24 @@ def test_weights(case, note):
     shape[axis] = N
     shape[other[0]] = N
     shape[other[1]] = 2
-    # integer grid (dx=1) to avoid the arange length issue (that is C16's)
-    dxs = [1.0, 1.0, 1.0]
-    fd = mkfd(shape, dxs, p, boundary)
-    # derivative spacing h is injected through inverse_d* (public attribute)
-    setattr(fd, "inverse_d" + "xyz"[axis], 1.0 / h)
+    if case.get("far"):
+        # the spacing given in the parameter dictionary is the one the
+        # operators use, wherever the box is: origin ~1e5 spacings (or 1e8
+        # for small h) away, non-dyadic
+        note.cls("box-far-from-origin")
+        dxs = [h, h, h]
+        fd = mkfd(shape, dxs, p, boundary,
+                  mins=(123456.7, -98765.4321, 3.3e5 + 0.1))
+        if fd.dx != h or fd.dy != h or fd.dz != h:
+            raise PropertyFailure("spacing-attribute",
+                                  dict(dx=fd.dx, dy=fd.dy, dz=fd.dz, want=h))
+    else:
+        # integer grid (dx=1) to avoid the arange length issue (C16's)
+        dxs = [1.0, 1.0, 1.0]
+        fd = mkfd(shape, dxs, p, boundary)
+        # derivative spacing h is injected through inverse_d* (public
+        # attribute)
+        setattr(fd, "inverse_d" + "xyz"[axis], 1.0 / h)
     f = np.zeros(shape)
     for j in range(N):
         ix = [0, 0, 0]
@@ -155,7 +171,7 @@ def weight_cells(nmax, hs):
             for N in range(min_n(p, b), nmax + 1):
                 for axis in range(3):
                     cells.append(dict(order=p, boundary=b, N=N, axis=axis,
-                                      h=hs[k % len(hs)]))
+                                      h=hs[k % len(hs)], far=(k % 5 == 0)))
                     k += 1
     return cells
 
